@@ -23,6 +23,7 @@ import (
 	"github.com/Ptt-official-app/go-pttbbs/cache"
 	"github.com/Ptt-official-app/go-pttbbs/cmbbs/path"
 	"github.com/Ptt-official-app/go-pttbbs/cmsys"
+	"github.com/Ptt-official-app/go-pttbbs/ptt"
 	"github.com/Ptt-official-app/go-pttbbs/ptttype"
 	"github.com/Ptt-official-app/go-pttbbs/types"
 )
@@ -98,6 +99,8 @@ func c06Err(err error) []string {
 		return errs(5)
 	case errors.Is(err, bbs.ErrInvalidParams):
 		return errs(7)
+	case errors.Is(err, ptt.ErrNoRecord):
+		return errs(8)
 	}
 	if os.Getenv("VERIF_SHOW_PANIC") != "" {
 		fmt.Fprintln(os.Stderr, "unmapped error:", err)
@@ -279,8 +282,123 @@ func init() {
 					cursor = nextIdx
 				}
 				return []string{"2"}
+			case 7: // one bbs.LoadGeneralArticles call with a client-supplied cursor: hascur T nm k desc
+				es := write(1, boardDir, args[1])
+				p := args[2]
+				cursor := ""
+				if ai(p[0]) != 0 {
+					cursor = c06Cursor(ai(p[1]), ai(p[2]))
+				}
+				page, code := c06Page(es, bid, cursor, int(ai(p[3])), ai(p[4]) != 0)
+				if code != 0 {
+					return errs(int(code))
+				}
+				return append([]string{"0"}, page.wire()...)
+			case 8: // bbs.LoadGeneralArticles walk on its own cursors, entries deleted between pages: k desc | page pos ...
+				es := write(1, boardDir, args[1])
+				lastKey[1] = "\x00" // the board file is modified below
+				k, desc := int(ai(args[2][0])), ai(args[2][1]) != 0
+				var dels []c06Entry // t = page number, nm = 0-based position
+				if len(args) > 3 {
+					dels = c06Parse(args[3])
+				}
+				es = append([]c06Entry{}, es...)
+				visited := []string{}
+				trace := []string{}
+				pages := int64(0)
+				fin := func(code int64) []string {
+					out := append([]string{"0", oi(code), oi(pages), oi(int64(len(visited)))}, visited...)
+					return append(out, trace...)
+				}
+				cursor := ""
+				for iter := 0; iter < 2*len(es)+6; iter++ {
+					for _, d := range dels {
+						if d.t == pages && d.nm >= 0 && d.nm < int64(len(es)) {
+							// what deleting an article does to its index entry (demo of the seed uses the same call)
+							must(cmsys.SubstituteRecord(boardDir, c06Header(c06Entry{-1, 0}), ptttype.FILE_HEADER_RAW_SZ, int32(d.nm)))
+							es[d.nm] = c06Entry{-1, 0}
+						}
+					}
+					page, code := c06Page(es, bid, cursor, k, desc)
+					if code != 0 {
+						return fin(code)
+					}
+					pages++
+					for i := int64(0); i < page.count; i++ {
+						if desc {
+							visited = append(visited, oi(page.first-i))
+						} else {
+							visited = append(visited, oi(page.first+i))
+						}
+					}
+					trace = append(trace, page.wire()...)
+					if page.next == "" {
+						return fin(0)
+					}
+					if page.nextT == -2 {
+						// the cursor text of an unparsable entry: the next request fails in DeserializeArticleIdxStr
+						_, code = c06Page(es, bid, page.next, k, desc)
+						if code == 0 {
+							code = 91
+						}
+						return fin(code)
+					}
+					cursor = page.next
+				}
+				return []string{"2"}
 			}
 			return []string{"9"}
 		},
 	})
+}
+
+// the cursor text a client would send for M.<t>.A.<nm>
+func c06Cursor(t, nm int64) string {
+	return strconv.FormatInt(t, 10) + "@" + string(bbs.ToArticleID(c06Name(t, nm)))
+}
+
+type c06PageT struct {
+	count, first int64
+	next         string // cursor text handed out ("" = none)
+	nextT, nextNm int64 // its (t, nm); (-1, 0) = none, (-2, 0) = text that DeserializeArticleIdxStr rejects
+}
+
+func (p *c06PageT) wire() []string {
+	return []string{oi(p.count), oi(p.first), oi(p.nextT), oi(p.nextNm)}
+}
+
+// one bbs.LoadGeneralArticles call on the board whose file holds es; code != 0: the error of the call
+// (90: a summary that is not the record at the position it is reported at)
+func c06Page(es []c06Entry, bid ptttype.Bid, cursor string, k int, desc bool) (*c06PageT, int64) {
+	bboardID := bbs.BBoardID(fmt.Sprintf("%d_WhoAmI", bid))
+	ss, nextIdx, _, _, startNum, err := bbs.LoadGeneralArticles(bbs.UUserID("SYSOP"), bboardID, cursor, k, desc)
+	if err != nil {
+		return nil, c06ErrCode(err)
+	}
+	p := &c06PageT{count: int64(len(ss)), next: nextIdx, nextT: -1}
+	for i, s := range ss {
+		idx := int64(startNum) + int64(i)
+		if desc {
+			idx = int64(startNum) - int64(i)
+		}
+		if idx < 1 || idx > int64(len(es)) || s.Filename != types.CstrToString(c06Header(es[idx-1]).Filename[:]) {
+			return nil, 90
+		}
+		if i == 0 {
+			p.first = idx
+		}
+	}
+	if nextIdx != "" {
+		ct, aid, err := bbs.DeserializeArticleIdxStr(nextIdx)
+		if err != nil {
+			p.nextT = -2
+		} else {
+			t, nm := c06Ident(aid.ToRaw())
+			if t != int64(ct) {
+				return nil, 92
+			}
+			p.nextT, p.nextNm = t, nm
+		}
+	}
+	return p, 0
 }
